@@ -164,7 +164,8 @@ impl Default for WlOpts {
 
 pub fn gen_workload(r: &mut Rng, o: &WlOpts) -> Workload {
     let cfn = r.chance(1, o.cfn_bias.max(1));
-    let d0 = if cfn { doc::gen_cfn(r) } else { doc::gen_doc(r) };
+    let tf = !cfn && r.chance(1, 8);
+    let d0 = if cfn { doc::gen_cfn(r) } else if tf { doc::gen_tf(r) } else { doc::gen_doc(r) };
     let ndocs = 1 + r.usize(o.max_docs.max(1));
     let mut docs = vec![(d0.clone(), DocFmt::pick(r))];
     for _ in 1..ndocs {
